@@ -113,6 +113,16 @@ impl DevState {
         }
     }
 
+    /// copy of the stored bytes only (fresh counters, no faults, no budget, write log off) - used by bulk modes
+    pub fn clone_image(&self) -> DevState {
+        let mut d = DevState::new(self.len, self.fill);
+        let fill = self.fill;
+        // pages that hold nothing but the fill byte need not exist
+        d.pages = self.pages.iter().filter(|(_, p)| p.iter().any(|b| *b != fill)).map(|(k, p)| (*k, p.clone())).collect();
+        d.log_writes = false;
+        d
+    }
+
     pub fn page_numbers(&self) -> Vec<u64> {
         let mut v: Vec<u64> = self.pages.keys().copied().collect();
         v.sort_unstable();
